@@ -32,7 +32,6 @@ mod st;
 mod xt;
 
 use std::{
-    any::Any,
     cell::{Cell, RefCell},
     future::Future,
     marker::PhantomData,
@@ -812,10 +811,6 @@ impl Wake for FlagWaker {
     fn wake_by_ref(self: &Arc<Self>) {
         self.wakes.fetch_add(1, SeqCst);
     }
-}
-
-pub(crate) fn any_payload_name(p: &Box<dyn Any + Send>) -> String {
-    p.downcast_ref::<&str>().map(|s| s.to_string()).or_else(|| p.downcast_ref::<String>().cloned()).unwrap_or_default()
 }
 
 // ---------------------------------------------------------------------------
